@@ -11,7 +11,9 @@ import (
 	"context"
 	"encoding/base64"
 	"encoding/json"
+	"errors"
 	"fmt"
+	"github.com/tailscale/setec/audit"
 	"math/rand/v2"
 	"net/http"
 	"net/http/httptest"
@@ -323,8 +325,10 @@ func TestC01(t *testing.T) {
 			concurrentDenied(t, r, dir, i)
 		}
 		concurrentPeers(t, r, dir)
+		sameLoginOtherGrants(t, r, dir)
+		denialWithFlakyAudit(t, r, dir)
 	}
-	r.Require("rule_changes_mid_case", "concurrent_peer_replies", "concurrent_denied_calls", "cases", "http_cases_with_spoofed_identity_headers", "allowed_calls", "denied_calls", "denied_on_existing", "denied_on_absent")
+	r.Require("overlapping_requests_same_login_other_grants", "denied_calls_with_flaky_audit", "rule_changes_mid_case", "concurrent_peer_replies", "concurrent_denied_calls", "cases", "http_cases_with_spoofed_identity_headers", "allowed_calls", "denied_calls", "denied_on_existing", "denied_on_absent")
 	r.Rule("case = (database state reached by 4-13 random superuser operations over a hostile 12-name pool incl. empty, reserved, newline, literal-'*' and path-like ('a/../b', 'a//b', 'a/b/') names; 0-3 random rules over the 5 actions (+unknown ones) and 23 exact/wildcard/regexp-meta patterns); then all 9 operations x all 8 names x versions {0,1,2,9} in random order, at the DB API and through the HTTP handlers. Distinct = (level, operation, authorised?, secret exists?, model outcome class, rule count)")
 }
 
@@ -510,4 +514,123 @@ func concurrentPeers(t *testing.T, r *evid.Run, dir string) {
 	wg.Wait()
 	r.Eval(1)
 	r.Distinct("concurrent peers over loopback")
+}
+
+type slowAudit struct{ wait time.Duration }
+
+func (s *slowAudit) Write(p []byte) (int, error) { time.Sleep(s.wait); return len(p), nil }
+
+// sameLoginOtherGrants: peers that share a login name (tagged nodes have none at all; one person uses several
+// devices) but hold different grants ask for the same secret at the same moment, the audit sink being slow so
+// that the requests overlap inside the server. Each answer is decided by the grant of the peer it goes to.
+func sameLoginOtherGrants(t *testing.T, r *evid.Run, dir string) {
+	d, err := db.Open(filepath.Join(dir, "samelogin.db"), realdb.DummyKey("c01s"), audit.New(&slowAudit{wait: 300 * time.Microsecond}))
+	if err != nil {
+		t.Fatal(err)
+	}
+	rng := r.Rand(60606)
+	val := marker(rng)
+	d.Put(realdb.Super(), "prod/key", val)
+	srv, err := httpdrv.New(d)
+	if err != nil {
+		t.Fatal(err)
+	}
+	type peer struct {
+		addr    string
+		who     httpdrv.Who
+		allowed bool
+	}
+	get := func(p string) []refmodel.Rule {
+		return []refmodel.Rule{{Actions: []string{"get", "info"}, Patterns: []string{p}}}
+	}
+	peers := []peer{
+		{"100.71.0.1:1", httpdrv.Who{Node: "prod-1", Tags: []string{"tag:prod"}, Rules: get("prod/*")}, true},
+		{"100.71.0.2:1", httpdrv.Who{Node: "dev-1", Tags: []string{"tag:dev"}, Rules: get("dev/*")}, false},
+		{"100.71.0.3:1", httpdrv.Who{Login: "tagged-devices", Node: "prod-2", Tags: []string{"tag:prod"}, Rules: get("prod/*")}, true},
+		{"100.71.0.4:1", httpdrv.Who{Login: "tagged-devices", Node: "dev-2", Tags: []string{"tag:dev"}, Rules: get("dev/*")}, false},
+		{"100.71.0.5:1", httpdrv.Who{Login: "pat@verif", Node: "pat-workstation", Rules: get("prod/*")}, true},
+		{"100.71.0.6:1", httpdrv.Who{Login: "pat@verif", Node: "pat-phone", Rules: get("dev/*")}, false},
+		{"100.71.0.7:1", httpdrv.Who{Login: "pat@verif", Node: "pat-laptop"}, false},
+	}
+	for _, p := range peers {
+		srv.SetWho(p.addr, p.who)
+	}
+	kinds := []ops.Op{{Kind: ops.Get, Name: "prod/key"}, {Kind: ops.GetVer, Name: "prod/key", Version: 1}, {Kind: ops.GetCond, Name: "prod/key", Version: 7}, {Kind: ops.Info, Name: "prod/key"}}
+	var bad atomic.Int32
+	for round := 0; round < r.N(120, 1200); round++ {
+		op := kinds[round%len(kinds)]
+		var wg sync.WaitGroup
+		var gate atomic.Bool
+		order := rng.Perm(len(peers))
+		for _, pi := range order {
+			p := peers[pi]
+			wg.Add(1)
+			go func() {
+				defer wg.Done()
+				for !gate.Load() {
+				}
+				res, rep, _ := srv.Do(p.addr, op)
+				r.Count("overlapping_requests_same_login_other_grants", 1)
+				switch {
+				case p.allowed && res.Class != refmodel.OK && bad.Add(1) <= 3:
+					r.Violation("http-authorised-call-refused", -1, fmt.Sprintf("round %d: %s by %s (login %q, tags %v, entitled) among %d overlapping requests got status %d", round, op, p.who.Node, p.who.Login, p.who.Tags, len(peers), rep.Status), nil)
+				case !p.allowed && (res.Class != refmodel.Denied || leaks(rep.Body, [][]byte{val})) && bad.Add(1) <= 3:
+					r.Violation("http-unauthorised-call-succeeded", -1, fmt.Sprintf("round %d: %s by %s (login %q, tags %v, NOT entitled) among %d overlapping requests got status %d (secret bytes in the reply: %t)", round, op, p.who.Node, p.who.Login, p.who.Tags, len(peers), rep.Status, leaks(rep.Body, [][]byte{val})), nil)
+				}
+			}()
+		}
+		gate.Store(true)
+		wg.Wait()
+	}
+	r.Eval(1)
+	r.Distinct("overlapping requests, same login, other grants")
+}
+
+// denialWithFlakyAudit: the audit log hiccups (one fsync fails, the next succeeds) exactly while a request
+// without a grant is being refused: whatever is reported, nothing is revealed and nothing changes.
+func denialWithFlakyAudit(t *testing.T, r *evid.Run, dir string) {
+	snk := &onceFailingSink{}
+	d, err := db.Open(filepath.Join(dir, "flakyaudit.db"), realdb.DummyKey("c01f"), audit.New(snk))
+	if err != nil {
+		t.Fatal(err)
+	}
+	rng := r.Rand(70707)
+	su := realdb.Super()
+	v1, v2 := marker(rng), marker(rng)
+	d.Put(su, "prod/db-password", v1)
+	d.Put(su, "prod/db-password", v2)
+	before, _ := realdb.Dump(d)
+	who := realdb.Caller("dev@verif", []refmodel.Rule{{Actions: []string{"info", "get", "put", "activate", "delete"}, Patterns: []string{"dev/*"}}})
+	for rep := 0; rep < 3; rep++ {
+		for _, op := range []ops.Op{{Kind: ops.Get, Name: "prod/db-password"}, {Kind: ops.GetVer, Name: "prod/db-password", Version: 2}, {Kind: ops.GetCond, Name: "prod/db-password", Version: 2},
+			{Kind: ops.GetCond, Name: "prod/db-password", Version: 1}, {Kind: ops.Info, Name: "prod/db-password"}, {Kind: ops.Put, Name: "prod/db-password", Value: []byte("overwritten")},
+			{Kind: ops.Act, Name: "prod/db-password", Version: 2}, {Kind: ops.DelVer, Name: "prod/db-password", Version: 2}, {Kind: ops.Delete, Name: "prod/db-password"}} {
+			snk.failNext.Store(int32(1 + rep%2)) // the next one (or two) Sync calls fail, later ones succeed
+			res := ops.ApplyReal(d, who, op)
+			snk.failNext.Store(0)
+			r.Eval(1)
+			r.Count("denied_calls_with_flaky_audit", 1)
+			if res.Class == refmodel.OK || res.Class == refmodel.NotChanged || res.HasVal || res.Meta != "" {
+				r.Violation("db-unauthorised-call-succeeded", -1, fmt.Sprintf("%s by a caller without a matching grant, while the audit log's fsync failed %d time(s) and then recovered: %s", op, 1+rep%2, res), nil)
+				return
+			}
+			now, err := realdb.Dump(d)
+			if err != nil || now.Canon() != before.Canon() {
+				r.Violation("db-unauthorised-call-changed-state", -1, fmt.Sprintf("%s by a caller without a matching grant (audit fsync failing once): the stored state changed (err %v)", op, err), nil)
+				return
+			}
+		}
+	}
+	r.Distinct("denials with a flaky audit log")
+}
+
+type onceFailingSink struct{ failNext atomic.Int32 }
+
+func (s *onceFailingSink) Write(p []byte) (int, error) { return len(p), nil }
+func (s *onceFailingSink) Sync() error {
+	if s.failNext.Load() > 0 {
+		s.failNext.Add(-1)
+		return errors.New("injected: audit log fsync failed")
+	}
+	return nil
 }
